@@ -17,6 +17,25 @@ import Ipv8.C15.GenDht
 
 namespace Ipv8.C15
 
+/-! ## Serialized values as the store sees them -/
+
+/-- what `unserialize_value` sees in a byte string -/
+inductive Wire
+  | str (data : Nat)                              -- first byte DHT_ENTRY_STR
+  | signed (data version pk pkHash sig : Nat)     -- first byte DHT_ENTRY_STR_SIGNED, parses as SignedStrPayload;
+                                                  --   pk = canonical encoding of the key the key bytes parse to
+  | unknown                                       -- any other first byte: returns None
+  | malformed                                     -- raises (empty, truncated, invalid key)
+  deriving DecidableEq, Repr, Inhabited
+
+/-- a byte string offered as a value: identity, length, sha1, parse -/
+structure Blob where
+  uid : Nat
+  len : Nat
+  hid : Nat
+  wire : Wire
+  deriving DecidableEq, Repr, Inhabited
+
 /-! ## Storage (storage.py) -/
 
 structure Value where
@@ -25,6 +44,7 @@ structure Value where
   lastUpdate : Nat
   maxAge : Nat
   version : Nat
+  src : Blob := default     -- ghost: the byte string `data` stands for (`data = src.uid` for values stored by add_value)
   deriving DecidableEq, Repr, Inhabited
 
 /-- `Value.expired`: `self.age <cmp> self.max_age` with `age = time.time() - last_update` -/
@@ -89,22 +109,6 @@ def Storage.olderThan (now minAge : Nat) (s : Storage) : List (Nat × Nat) :=
 
 /-! ## Serialized values (community.py: unserialize_value / add_value) -/
 
-/-- what `unserialize_value` sees in a byte string -/
-inductive Wire
-  | str (data : Nat)                              -- first byte DHT_ENTRY_STR
-  | signed (data version pk pkHash sig : Nat)     -- first byte DHT_ENTRY_STR_SIGNED, parses as SignedStrPayload
-  | unknown                                       -- any other first byte: returns None
-  | malformed                                     -- raises (empty, truncated, invalid key)
-  deriving DecidableEq, Repr, Inhabited
-
-/-- a byte string offered as a value: identity, length, sha1, parse -/
-structure Blob where
-  uid : Nat
-  len : Nat
-  hid : Nat
-  wire : Wire
-  deriving DecidableEq, Repr, Inhabited
-
 /-- abstract hash (tokens) and signature scheme -/
 structure Crypto (Tok : Type) where
   tokenHash : Nat → Nat → Nat → Tok       -- sha1(str(node) + secret): address, mid, secret
@@ -132,7 +136,7 @@ def addValue {Tok : Type} (C : Crypto Tok) (now key : Nat) (b : Blob) (maxAge : 
     let id := match signer with
       | some (_, pkh) => pkh
       | none => b.hid
-    some (s.put key { id := id, data := b.uid, lastUpdate := now, maxAge := maxAge, version := ver })
+    some (s.put key { id := id, data := b.uid, lastUpdate := now, maxAge := maxAge, version := ver, src := b })
 
 /-- the `for value in payload.values: self.add_value(...)` loop; the flag is false when an exception ended it -/
 def addValues {Tok : Type} (C : Crypto Tok) (now key maxAge : Nat) : List Blob → Storage → Storage × Bool
@@ -279,6 +283,21 @@ def Node.storePeerReq {Tok : Type} [DecidableEq Tok] (C : Crypto Tok) (n : Node)
     let cur' := if cur.any (fun i => i.pk == who.pk) then cur else cur ++ [who]
     ({ n with peers := setP n.peers target cur' }, true)
 
+/-- `store_on_nodes`: the values kept after the size filter and the count cap (both read from the source) -/
+def keepLocal (vs : List Blob) : List Blob :=
+  let vs := match Gen.localKeep with
+    | some (c, b) => vs.filter (fun v => c.eval v.len b)
+    | none => vs
+  match Gen.localCap with
+  | some n => vs.take n
+  | none => vs
+
+/-- the local part of `store_on_nodes` (also reached from every lookup through `_find`): when the node decides to keep the
+    pair itself (`local`), `for value in reversed(values): self.add_value(key, value, storage)` with the default max_age;
+    no token is involved — the node acts on its own behalf -/
+def Node.cacheStore {Tok : Type} (C : Crypto Tok) (n : Node) (key : Nat) (values : List Blob) (loc : Bool) : Node :=
+  if loc then { n with store := (addValues C n.now key Gen.maxEntryAge (keepLocal values).reverse n.store).1 } else n
+
 /-! ## Histories -/
 
 inductive Op (Tok : Type)
@@ -289,6 +308,7 @@ inductive Op (Tok : Type)
   | store (r : StoreReq Tok)
   | storePeer (who : Ident) (token : Tok) (target : Nat)
   | ping (nid : Nat)
+  | cache (key : Nat) (values : List Blob) (loc : Bool)     -- the node's own store_on_nodes / lookup caching
 
 def Node.step {Tok : Type} [DecidableEq Tok] (C : Crypto Tok) (n : Node) : Op Tok → Node
   | .adv dt => n.adv dt
@@ -298,6 +318,7 @@ def Node.step {Tok : Type} [DecidableEq Tok] (C : Crypto Tok) (n : Node) : Op To
   | .store r => (n.storeReq C r).1
   | .storePeer w tok t => (n.storePeerReq C w tok t).1
   | .ping nid => (n.pingReq nid).1
+  | .cache key values loc => n.cacheStore C key values loc
 
 def Node.run {Tok : Type} [DecidableEq Tok] (C : Crypto Tok) (n : Node) (ops : List (Op Tok)) : Node :=
   ops.foldl (Node.step C) n
